@@ -78,7 +78,7 @@ package service
 // open batch's waiting list in the same critical section.
 //@ func (*InsertServiceV2).Request [C01]
 //@   ensures fresh(result)
-//@ func (*InsertServiceV2).Request$1 [C01,C02]
+//@ func (*InsertServiceV2).Request$1 [C01,C02,C05]
 //@   requires p.pending == 1 && size >= 0
 //@   check queued-or-settled: (p.pending == 0 && p.res == 0 && (err != nil || inserted == 0)) ||
 //@          (p.pending == 1 && err == nil && inserted != 0 && len(svc.results) >= 1 && svc.results[len(svc.results) - 1] == p)
@@ -141,3 +141,9 @@ package service
 //@   modifies everything
 //@   loop 1:
 //@     modifies nothing
+
+// PlanFlush takes the batch lock itself: it must not be called by code that already
+// holds it (sync.Mutex is not reentrant - the caller would block for ever with the lock
+// held, and with it every later request of that table and the flush goroutine).
+//@ func (*InsertServiceV2).PlanFlush [C05]
+//@   requires not-under-the-batch-lock: !held(svc.mtx)
